@@ -266,6 +266,13 @@ def check_css_sanity(src, ctx, au):
                     ctx.violation('select-next-skips-a-declaration', {'lang': 'css-statements', 'src': src, 'pos': pos, 'previous': False},
                                   {'listed_declaration_at': list(ahead[0].name), 'next_item': nx[1] and [nx[1].start, nx[1].end]})
             bad = not (0 <= s.start <= s.body_start <= s.body_end <= s.end <= n)
+            # `before` of a declaration is where the previous one ended (`after`) when nothing but white space lies between the two
+            props = s.properties or []
+            for p1, p2 in zip(props, props[1:]):
+                if p1.after <= p2.name[0] and not src[p1.after:p2.name[0]].strip() and p2.before != p1.after:
+                    ctx.violation('before-is-not-the-end-of-the-previous-declaration', {'lang': 'css-statements', 'src': src, 'pos': pos},
+                                  {'previous': [list(p1.name), p1.after], 'this': [list(p2.name), p2.before]})
+                    break
             for pr in (s.properties or []):
                 if not (pr.name[0] <= pr.name[1] and pr.value[0] <= pr.value[1] and pr.before <= pr.name[0] and pr.value[1] <= pr.after):
                     bad = True
